@@ -26,7 +26,7 @@ def run(ctx):
                    "(each string and the vector in exactly sized heap blocks under ASan) against glibc getopt_long in return-in-order mode (\"-:abo:\", exact long names) "
                    "mapped to (character, argument) sequences; command lines: every line of <= 3 words over {a a\\\\b \"\" \"a b\" \"a\\\\\"b\" a\"b c\"d \"a\\\\b\"} through "
                    "Process::open(commandLine) against a helper child that echoes its argv, with a reference splitter and a watchdog; launch: 5 argument vectors x "
-                   "2 overloads x 3 environments, 4 stream combinations with stdout x 6 payload sizes around the pipe capacity (stdin digest, stdout/stderr to EOF), exit codes 0..255; 16 overlapping pairs of processes (second opened before / after close(stdin) of the first, first joined / killed / destroyed, either finishing first); 36 two-child histories on one Process object (3 x 3 stream sets, first child joined / killed, stdin closed or not); 6 late-writer runs (join entered before the child writes)"
+                   "2 overloads x 3 environments, all 7 non-empty stream combinations (the child reports on stdout, on stderr, or through its exit code) x 6 payload sizes around the pipe capacity (stdin digest, stdout/stderr to EOF), exit codes 0..255; 16 overlapping pairs of processes (second opened before / after close(stdin) of the first, first joined / killed / destroyed, either finishing first); 36 two-child histories on one Process object (3 x 3 stream sets, first child joined / killed, stdin closed or not); 6 late-writer runs (join entered before the child writes)"
                    % (4 if q else 6),
            "exhaustive": True}
     return ctx.finish("exploration", cov, ["GNU-only getopt features (prefix matching of long names, short options with optional arguments) are outside the statement",
